@@ -7,7 +7,7 @@ EXPLAIN = ("bounded symbolic execution of the real pams code: the harness runs t
 
 CHECKS = {
     "C01": {"harnesses": [("harness.matching", "C01_ClearingRound"), ("harness.matching", "C01_Continuous"),
-                          ("harness.priority", "C01_HeapMaintenance")]},
+                          ("harness.priority", "C01_HeapMaintenance"), ("harness.ophistory", "C01_OpHistory")]},
     "C02": {"harnesses": [("harness.priority", "C02_OrderLaws"), ("harness.priority", "C02_HeapMaintenance"),
                           ("harness.matching", "C02_ClearingRound"), ("harness.matching", "C02_Continuous")],
             "post": ("harness.xcheck", "post_c02")},
@@ -29,7 +29,8 @@ CHECKS = {
                           ("harness.config", "C18_ClassLookup")]},
     "C19": {"harnesses": [("harness.functions", "C19_TickRounding")]},
     "C20": {"harnesses": [("harness.agents", "C20_FCN"), ("harness.agents", "C20_MarketShareFCN"),
-                          ("harness.agents", "C20_MarketMaker"), ("harness.agents", "C20_Arbitrage")]},
+                          ("harness.agents", "C20_MarketMaker"), ("harness.agents", "C20_Arbitrage"),
+                          ("harness.agents", "C20_TestAgentOrders")]},
     "C06": {"harnesses": [("harness.clock", "C06_ClockAndHistory")]},
     "C07": {"harnesses": [("harness.repro", "C07_Reproducible")], "post": ("harness.repro", "post")},
     "C08": {"harnesses": [("harness.ophistory", "C08_OpHistory")]},
